@@ -33,17 +33,79 @@ def _ax_ymd(lo, hi):
     return ax
 
 
+
+# ---- the proleptic Gregorian calendar, exactly (linear integer arithmetic with division by constants) ----------------------------------------
+_DBM = [0, 31, 59, 90, 120, 151, 181, 212, 243, 273, 304, 334]
+
+
+def z_leap(y):
+    return z3.And(y % 4 == 0, z3.Or(y % 100 != 0, y % 400 == 0))
+
+
+def z_dbm(m):
+    e = z3.IntVal(_DBM[11])
+    for i in range(10, -1, -1):
+        e = z3.If(m == i + 1, z3.IntVal(_DBM[i]), e)
+    return e
+
+
+def z_dim(y, m):
+    """days in month m of year y"""
+    return z3.If(m == 2, z3.If(z_leap(y), z3.IntVal(29), z3.IntVal(28)), z3.If(z3.Or(m == 4, m == 6, m == 9, m == 11), z3.IntVal(30), z3.IntVal(31)))
+
+
+def z_ord(y, m, d):
+    """ordinal of the date y-m-d (0001-01-01 is 1)"""
+    y1 = y - 1
+    return 365 * y1 + y1 / 4 - y1 / 100 + y1 / 400 + z_dbm(m) + z3.If(z3.And(m > 2, z_leap(y)), z3.IntVal(1), z3.IntVal(0)) + d
+
+
+def py_ord(y, m, d):
+    """the same formula on Python ints (tested against datetime.date.toordinal on every run)"""
+    y1 = y - 1
+    leap = y % 4 == 0 and (y % 100 != 0 or y % 400 == 0)
+    return 365 * y1 + y1 // 4 - y1 // 100 + y1 // 400 + _DBM[m - 1] + (1 if m > 2 and leap else 0) + d
+
+
+def py_dim(y, m):
+    leap = y % 4 == 0 and (y % 100 != 0 or y % 400 == 0)
+    return (29 if leap else 28) if m == 2 else (30 if m in (4, 6, 9, 11) else 31)
+
+
+def _zi(x):
+    return x.t if is_sym(x) else z3.IntVal(int(x))
+
+
+def _cal_ax(o):
+    """the year / month / day of an ordinal ARE its calendar fields: a valid date whose ordinal it is (this determines them - the triple of
+    a given ordinal is unique, which z3 proves in under a second)"""
+    Y, Mo, D = YEAR_OF.u.f(o), MONTH_OF.u.f(o), DAY_OF.u.f(o)
+    return z3.Implies(z3.And(o >= MIN_ORD, o <= MAX_ORD),
+                      z3.And(Y >= 1, Y <= 9999, Mo >= 1, Mo <= 12, D >= 1, D <= z_dim(Y, Mo), o == z_ord(Y, Mo, D)))
+
+
+def _cal_native(o):
+    if not _ok_ord(o):
+        return True
+    d = _dt.date.fromordinal(o)
+    return py_ord(d.year, d.month, d.day) == o and 1 <= d.day <= py_dim(d.year, d.month) and \
+        py_dim(d.year, d.month) == ((_dt.date(d.year + (d.month == 12), d.month % 12 + 1, 1) - _dt.date(d.year, d.month, 1)).days if d.year < 9999 else py_dim(d.year, d.month))
+
+
 YEAR_OF = M.uf('greg_year', ['int'], 'int', lambda o: _dt.date.fromordinal(o).year if _ok_ord(o) else 0, axiom=(
     'year of an ordinal in 1..3652059 is in 1..9999; ordinals from 693596 (1900-01-01) on have year >= 1900',
     lambda a, r: z3.And(z3.Implies(z3.And(a[0].t >= MIN_ORD, a[0].t <= MAX_ORD), z3.And(r.t >= 1, r.t <= 9999)),
-                        z3.Implies(z3.And(a[0].t >= 693596, a[0].t <= MAX_ORD), r.t >= 1900)),
-    lambda a, r: not _ok_ord(a[0]) or (1 <= r <= 9999 and (a[0] < 693596 or r >= 1900)), [[1], [693595], [693596], [3652059]]))
+                        z3.Implies(z3.And(a[0].t >= 693596, a[0].t <= MAX_ORD), r.t >= 1900), _cal_ax(a[0].t)),
+    lambda a, r: not _ok_ord(a[0]) or (1 <= r <= 9999 and (a[0] < 693596 or r >= 1900) and _cal_native(a[0])),
+    [[1], [693595], [693596], [3652059], [730179], [730180], [767010], [693655]]))
 MONTH_OF = M.uf('greg_month', ['int'], 'int', lambda o: _dt.date.fromordinal(o).month if _ok_ord(o) else 0, axiom=(
-    'month of an ordinal is in 1..12', lambda a, r: z3.Implies(z3.And(a[0].t >= MIN_ORD, a[0].t <= MAX_ORD), z3.And(r.t >= 1, r.t <= 12)),
-    lambda a, r: not _ok_ord(a[0]) or 1 <= r <= 12, [[1], [693596], [3652059]]))
+    'month of an ordinal is in 1..12; (year, month, day) is the valid date with this ordinal',
+    lambda a, r: z3.And(z3.Implies(z3.And(a[0].t >= MIN_ORD, a[0].t <= MAX_ORD), z3.And(r.t >= 1, r.t <= 12)), _cal_ax(a[0].t)),
+    lambda a, r: not _ok_ord(a[0]) or (1 <= r <= 12 and _cal_native(a[0])), [[1], [693596], [3652059], [730179], [730180]]))
 DAY_OF = M.uf('greg_day', ['int'], 'int', lambda o: _dt.date.fromordinal(o).day if _ok_ord(o) else 0, axiom=(
-    'day of an ordinal is in 1..31', lambda a, r: z3.Implies(z3.And(a[0].t >= MIN_ORD, a[0].t <= MAX_ORD), z3.And(r.t >= 1, r.t <= 31)),
-    lambda a, r: not _ok_ord(a[0]) or 1 <= r <= 31, [[1], [693596], [3652059]]))
+    'day of an ordinal is in 1..31; (year, month, day) is the valid date with this ordinal',
+    lambda a, r: z3.And(z3.Implies(z3.And(a[0].t >= MIN_ORD, a[0].t <= MAX_ORD), z3.And(r.t >= 1, r.t <= 31)), _cal_ax(a[0].t)),
+    lambda a, r: not _ok_ord(a[0]) or (1 <= r <= 31 and _cal_native(a[0])), [[1], [693596], [3652059], [730179], [730180]]))
 ISOWEEK_OF = M.uf('greg_isoweek', ['int'], 'int', lambda o: _dt.date.fromordinal(o).isocalendar()[1] if _ok_ord(o) else 0)
 ISOYEAR_OF = M.uf('greg_isoyear', ['int'], 'int', lambda o: _dt.date.fromordinal(o).isocalendar()[0] if _ok_ord(o) else 0)
 
@@ -172,7 +234,12 @@ class SymDateTime(SymObject):
             if op is ast.Sub and not reflected:
                 return self.plus(it, SymTimedelta(0 - other.days, 0 - other.seconds))
         if type(other).__name__ == 'relativedelta':
-            raise Unsupported('relativedelta arithmetic on a symbolic date (assumed contract; bounded layer)')
+            other = SymRelDelta.of_native(other)
+        if isinstance(other, SymRelDelta):
+            if op is ast.Add:
+                return other.add_to(it, self)
+            if op is ast.Sub and not reflected:
+                return other.negated().add_to(it, self)
         return NotImplemented
 
     def compare(self, it, op, other, reflected):
@@ -187,14 +254,21 @@ class SymDateTime(SymObject):
         return cmp(op, a.ord * DAY + a.sec, b.ord * DAY + b.sec)
 
     # fields
+    ymd = None      # (year, month, day) when the date was MADE from valid fields: they are the fields of its ordinal (the triple is unique)
+
+    def fields(self):
+        if self.ymd is not None:
+            return self.ymd
+        return YEAR_OF(self.ord), MONTH_OF(self.ord), DAY_OF(self.ord)
+
     def a_year(self, it):
-        return YEAR_OF(self.ord)
+        return self.fields()[0]
 
     def a_month(self, it):
-        return MONTH_OF(self.ord)
+        return self.fields()[1]
 
     def a_day(self, it):
-        return DAY_OF(self.ord)
+        return self.fields()[2]
 
     def m_weekday(self, it):
         return arith(ast.Mod, self.ord + 6, 7)          # ordinal 1 (0001-01-01) is a Monday: exact
@@ -221,7 +295,11 @@ class SymDateTime(SymObject):
         return fresh('str', 'isoformat')
 
     def m_replace(self, it, **kw):
-        raise Unsupported('datetime.replace on a symbolic date')
+        if set(kw) - {'year', 'month', 'day'}:
+            raise Unsupported('datetime.replace of time fields on a symbolic date')
+        f = self.fields()
+        y, m, d = kw.get('year', f[0]), kw.get('month', f[1]), kw.get('day', f[2])
+        return _make_date(it, y, m, d, self.sec)
 
     def m___str__(self, it):
         from .sym import fresh
@@ -239,7 +317,12 @@ def m_timedelta(it, days=0, seconds=0, microseconds=0, milliseconds=0, minutes=0
     if is_sym(d) and d.k == 'real':
         raise Unsupported('timedelta(days=float)')
     if is_sym(s) and s.k == 'real':
-        raise Unsupported('timedelta(seconds=symbolic float): time of day is decided by the bounded layer')
+        # a whole serial carried as a float has no time of day: decide that on the path (the other branch - a real fraction of a day - is
+        # outside the model and stays undecided if it is feasible)
+        if it.branch(cmp(ast.Eq, s, 0)):
+            s = 0
+        else:
+            raise Unsupported('timedelta(seconds=symbolic float): time of day is decided by the bounded layer')
     if not is_sym(s) and isinstance(s, float):
         if s != int(s):
             raise Unsupported('fractional seconds')
@@ -248,3 +331,121 @@ def m_timedelta(it, days=0, seconds=0, microseconds=0, milliseconds=0, minutes=0
 
 
 M.CLASS_MODELS[_dt.timedelta] = m_timedelta
+
+
+# ---- dates from fields, dateutil.relativedelta (years / months / days / day) - exact ---------------------------------------------------------------
+def _int_like(x, what):
+    if is_sym(x):
+        if x.k != 'int':
+            raise Unsupported(f'{what}: a symbolic non-integer')
+        return x
+    if isinstance(x, bool) or not isinstance(x, int):
+        if isinstance(x, float) and x == int(x):
+            return int(x)
+        raise Unsupported(f'{what}: {type(x).__name__}')
+    return x
+
+
+def _make_date(it, y, m, d, sec=0):
+    """datetime(y, m, d) / replace(...): ValueError unless it is a date of the calendar"""
+    y, m, d = _int_like(y, 'year'), _int_like(m, 'month'), _int_like(d, 'day')
+    if not any(is_sym(x) for x in (y, m, d)):
+        try:
+            return SymDateTime(_dt.date(y, m, d).toordinal(), sec)
+        except ValueError as ex:
+            raise RaiseEx(ex)
+    zy, zm, zd = _zi(y), _zi(m), _zi(d)
+    ok = Sym(z3.And(zy >= 1, zy <= 9999, zm >= 1, zm <= 12, zd >= 1, zd <= z_dim(zy, zm)), 'bool')
+    if not it.branch(ok):
+        raise RaiseEx(ValueError('date fields out of range'))
+    out = SymDateTime(Sym(z_ord(zy, zm, zd), 'int'), sec)
+    out.ymd = (y, m, d)
+    return out
+
+
+class SymRelDelta(SymObject):
+    """relativedelta(years=, months=, days=, day=) - the relative fields are added month-wise (the day clipped to the month's end),
+    then the days; `day` is the absolute day of the month (clipped).  As dateutil: year = y0 + years, month carried, day = min(..)."""
+    try:
+        from dateutil.relativedelta import relativedelta as _rd
+        py_type = _rd
+    except Exception:      # noqa
+        pass
+
+    def __init__(self, years=0, months=0, days=0, day=None):
+        self.years, self.months, self.days = _int_like(years, 'years'), _int_like(months, 'months'), _int_like(days, 'days')
+        self.day = None if day is None else _int_like(day, 'day')
+
+    @classmethod
+    def of_native(cls, rd):
+        if any(getattr(rd, f) for f in ('hours', 'minutes', 'seconds', 'microseconds', 'leapdays')) or \
+                any(getattr(rd, f) is not None for f in ('year', 'month', 'weekday', 'hour', 'minute', 'second', 'microsecond')):
+            raise Unsupported('relativedelta fields other than years / months / days / day on a symbolic date')
+        return cls(rd.years, rd.months, rd.days, rd.day)
+
+    def negated(self):
+        return SymRelDelta(0 - self.years, 0 - self.months, 0 - self.days, self.day)
+
+    def add_to(self, it, d):
+        d = _as_sym(d)
+        y0, m0, d0 = d.fields()
+        idx = (y0 + self.years) * 12 + (m0 - 1) + self.months
+        if is_sym(idx):
+            y, m = arith(ast.FloorDiv, idx, 12), arith(ast.Mod, idx, 12) + 1
+        else:
+            y, m = idx // 12, idx % 12 + 1
+        in_range = And(y >= 1, y <= 9999) if is_sym(y) else (1 <= y <= 9999)
+        if not (it.branch(in_range) if is_sym(in_range) else in_range):
+            raise RaiseEx(ValueError('year is out of range'))
+        dd = d0 if self.day is None else self.day
+        zy, zm, zdd = _zi(y), _zi(m), _zi(dd)
+        day = z3.If(zdd > z_dim(zy, zm), z_dim(zy, zm), zdd)
+        if self.day is not None and (is_sym(self.day) or self.day < 1):
+            if not (it.branch(Sym(zdd >= 1, 'bool'))):
+                raise RaiseEx(ValueError('day is out of range for month'))
+        base = SymDateTime(Sym(z_ord(zy, zm, day), 'int'), d.sec)
+        base.ymd = (y, m, Sym(day, 'int'))
+        if is_sym(self.days) or self.days != 0:
+            return base.plus(it, SymTimedelta(self.days, 0))
+        return base
+
+    def binop(self, it, op, other, reflected):
+        if op is ast.Add and isinstance(other, (_dt.datetime, SymDateTime)):
+            return self.add_to(it, other)
+        if op is ast.Sub and reflected and isinstance(other, (_dt.datetime, SymDateTime)):
+            return self.negated().add_to(it, other)
+        return NotImplemented
+
+
+def m_relativedelta(it, dt1=None, dt2=None, **kw):
+    from dateutil.relativedelta import relativedelta as _rd
+    if dt1 is None and dt2 is None and set(kw) <= {'years', 'months', 'days', 'day'} and any(is_sym(v) for v in kw.values()):
+        for f in ('years', 'months'):
+            v = kw.get(f, 0)
+            if is_sym(v) and v.k != 'int':
+                raise Unsupported(f'relativedelta({f}=symbolic float)')
+        return SymRelDelta(**kw)
+    if any(is_sym(v) for v in kw.values()) or isinstance(dt1, SymDateTime) or isinstance(dt2, SymDateTime):
+        raise Unsupported('relativedelta with symbolic fields other than years / months / days / day')
+    return it.native(_rd, [dt1, dt2], kw)
+
+
+try:
+    from dateutil.relativedelta import relativedelta as _rd_cls
+    M.CLASS_MODELS[_rd_cls] = m_relativedelta
+except Exception:      # noqa
+    pass
+
+
+def m_datetime(it, *args, **kw):
+    if not any(is_sym(a) for a in list(args) + list(kw.values())):
+        return it.native(_dt.datetime, list(args), kw)
+    names = ['year', 'month', 'day', 'hour', 'minute', 'second', 'microsecond']
+    f = dict(zip(names, args))
+    f.update(kw)
+    if any(is_sym(f.get(n)) or f.get(n, 0) for n in names[3:]) or set(f) - set(names):
+        raise Unsupported('datetime(...) with symbolic or non-zero time fields')
+    return _make_date(it, f['year'], f['month'], f['day'])
+
+
+M.CLASS_MODELS[_dt.datetime] = m_datetime
